@@ -6,10 +6,10 @@
 
 namespace c13
 {
-  enum Op { op_gate = 0, op_sync0, op_sync1, op_sync1_mean, op_from10_dot, op_apply, op_apply_axpy, op_diag, op_lump, op_to1, op_pcg, op_count };
+  enum Op { op_gate = 0, op_sync0, op_sync1, op_sync1_mean, op_from10_dot, op_apply, op_apply_axpy, op_diag, op_lump, op_to1, op_rect_apply, op_rect_to1, op_pcg, op_count };
   inline const char* op_name(int o)
   {
-    static const char* n[] = {"gate", "sync_0", "sync_1", "sync_1(mean)", "from_1_to_0+dot+norm2", "matrix.apply", "matrix.apply(y,alpha)", "extract_diag", "lump_rows", "convert_to_1", "pcg-jacobi"};
+    static const char* n[] = {"gate", "sync_0", "sync_1", "sync_1(mean)", "from_1_to_0+dot+norm2", "matrix.apply", "matrix.apply(y,alpha)", "extract_diag", "lump_rows", "convert_to_1", "rect-block(2x3) matrix.apply", "rect-block(2x3) convert_to_1", "pcg-jacobi"};
     return n[o];
   }
   static const int pcg_iters = 4;
@@ -121,6 +121,36 @@ namespace c13
         const double* v = matval(M1);
         out.mat.assign(v, v + size_t(M1.used_elements()) * size_t(bs * bs));
         if(M1.used_elements() != R.A0.used_elements()) out.note += "convert_to_1 changed the pattern; ";
+      }
+      break;
+    case op_rect_apply:
+    case op_rect_to1:
+      if constexpr(bs == 2)
+      {
+        // rectangular blocks: row space blocked<2>, column space blocked<3> with its own gate over the same mirrors
+        typedef LAFEM::DenseVectorBlocked<double, Index, 3> Vec3;
+        typedef LAFEM::SparseMatrixBCSR<double, Index, 2, 3> MatR;
+        Global::Gate<Vec3, Mirror> gate3(comm);
+        for(size_t i = 0; i < R.nb.size(); ++i) gate3.push(R.nb[i], R.mirrors[i].clone(LAFEM::CloneMode::Shallow));
+        gate3.compile(Vec3(n));
+        Global::Matrix<MatR, Mirror, Mirror> A(&gate, &gate3, R.A0r.clone(LAFEM::CloneMode::Deep));
+        if(op == op_rect_apply)
+        {
+          Global::Vector<Vec3, Mirror> x(&gate3, Vec3(n));
+          double* px = raw(x.local());
+          for(Index j = 0; j < n; ++j) for(int c = 0; c < 3; ++c) px[size_t(j) * 3u + size_t(c)] = val_u(R.p2b[size_t(j)], c);
+          GVec r(&gate, Vec(n));
+          r.format(-77.0);
+          A.apply(r, x);
+          put(0, r.local());
+        }
+        else
+        {
+          MatR M1 = A.convert_to_1();
+          const double* v = matval(M1);
+          out.mat.assign(v, v + size_t(M1.used_elements()) * 6u);
+          if(M1.used_elements() != R.A0r.used_elements()) out.note += "convert_to_1 changed the pattern; ";
+        }
       }
       break;
     case op_pcg:
